@@ -273,6 +273,35 @@ def zstd_streaming(x: bytes, level: int = 3, pieces: int = 1) -> bytes:
     return b"".join(out)
 
 
+def zstd_params_streaming(x: bytes, level: int = 1, window_log: int = 0, ldm: bool = False, writer: bool = False) -> bytes:
+    """Size-less frame from a streaming compressor with explicit compression parameters: a large `window_log` is what
+    the ultra levels 20-22 write (32-128 MiB) — built here from a fast strategy, because setting up a real level-22
+    streaming context takes tens of seconds — and `ldm` is long-distance matching (`zstd --long`)."""
+    kw: dict[str, Any] = {}
+    if window_log:
+        kw["window_log"] = window_log
+    if ldm:
+        kw["enable_ldm"] = True
+    cctx = zstandard.ZstdCompressor(compression_params=zstandard.ZstdCompressionParameters.from_level(level, **kw))
+    if writer:
+        buf = io.BytesIO()
+        with cctx.stream_writer(buf, closefd=False) as w:
+            w.write(x)
+        return buf.getvalue()
+    co = cctx.compressobj()
+    return co.compress(x) + co.flush()
+
+
+def zstd_oneshot_params(x: bytes, level: int = 1, window_log: int = 0, ldm: bool = False) -> bytes:
+    """Size-declaring frame from the one-shot API with explicit parameters."""
+    kw: dict[str, Any] = {}
+    if window_log:
+        kw["window_log"] = window_log
+    if ldm:
+        kw["enable_ldm"] = True
+    return zstandard.ZstdCompressor(compression_params=zstandard.ZstdCompressionParameters.from_level(level, **kw)).compress(x)
+
+
 def zstd_stream_writer(x: bytes, level: int = 3, with_size: bool = True) -> bytes:
     """What `_CompressionMiddleware.process_response` does (stream_writer, size known or not)."""
     buf = io.BytesIO()
